@@ -11,8 +11,8 @@ TARGET = dict(
     assumptions=["reference map (type code, name) -> value octets kept by the harness in its own value representation",
                  "argument domains from include/upipe/udict.h and the asserts of lib/upipe/udict_inline.c (name + value <= 65535 octets, int != INT64_MIN, quiet NaNs only)",
                  "counting umem: exact-size areas, every reallocation moves, under ASan",
-                 "allocation failure is not generated: every in-domain set/dup/copy/import must succeed"],
-    execs=[dict(name="udict", harness="harness/C10_udict.c", repo=LIBUPIPE, engine=MEMFIX, share=1.0),
+                 "executor udict, allocation-fault mode (15% of the cases; engine/faultmalloc.h): half of the operations run with their 1st..4th allocation refused; a set / dup / copy / alloc may then fail and leaves everything as it was, an import that fails leaves each attribute as it was or as the source has it, and whatever reports success has taken effect completely; otherwise every in-domain set/dup/copy/import must succeed"],
+    execs=[dict(name="udict", harness="harness/C10_udict.c", repo=LIBUPIPE, engine=MEMFIX, fault_malloc=True, share=1.0),
            dict(name="urefattr", harness="harness/C10_urefattr.c", repo=LIBUPIPE, engine=MEMFIX, share=1.0)],
     quick=dict(cases=12000, budget=22), thorough=dict(cases=400000, budget=240),
 )
@@ -20,5 +20,5 @@ META = dict(
     technique="model-based property testing (rapidcheck tapes -> stateful C executors) against an ordered-map reference model under ASan with exact-size, always-moving storage",
     text="Generated histories of typed set/delete/dup/copy/import/cmp/iterate over up to 4 inline dictionaries (and over urefs through the generated attribute accessors) with generated manager parameters; names that are prefixes of one another or equal shorthand names, all 38 shorthands, value sizes up to the documented 64 KiB limit biased to slot-reuse, exact-fit and size-field boundaries, and values whose source pointer lies in the dictionary itself. Oracle: reference map keyed by (type, name) holding values in the harness' own representation; after every operation every watched key is looked up in every dictionary (typed, bit-exact incl. sign and IEEE bits), every dictionary is iterated (each present attribute exactly once), udict_cmp == 0 iff models equal (both argument orders), import = right-biased union, copy == dup, per-attribute cmp == 0 iff both absent or identical. Sampling.",
     design_ref="DESIGN.md section 6, C10",
-    note="allocation failures, other udict managers than udict_inline, type codes outside enum udict_type (udict_inline_shorthand accepts the first code past its table: out-of-bounds read of the table, noted, not checked) and self-import are outside; signalling NaNs and INT64_MIN are outside the documented/portable domain and not generated",
+    note="allocation failures in the uref accessor layer, other udict managers than udict_inline, type codes outside enum udict_type (udict_inline_shorthand accepts the first code past its table: out-of-bounds read of the table, noted, not checked) and self-import are outside; signalling NaNs and INT64_MIN are outside the documented/portable domain and not generated",
 )
